@@ -267,6 +267,24 @@ example : Spec.validHist .sv (Spec.SSys.init 2) [(0, .push 0 7), (0, .insert1 0 
 example : Spec.validHist .sv (Spec.SSys.init 2) [(0, .push 0 7), (0, .insert1 0 0 8), (0, .eraseRange 0 2)] = true := by decide
 '''
 
+MANUAL["wrappers"] = '''
+/-- **every valid history** of pair / tuple / inplace_function / function_ref owners (any length, self-assignment and
+    self-swap included): the model never fails — `C20.Props.run_refines` states it through the relation `RefinesRun`,
+    which is `False` on `.error` -/
+theorem fn_history_no_error (ops : List Op) (s : St) (hinv : Inv s) (hv : ops.all Spec.valid = true) :
+    ∃ res, run s ops = .ok res := by
+  have h := C20.Props.run_refines ops s hinv hv
+  cases hr : run s ops with
+  | ok r => exact ⟨r, rfl⟩
+  | error e => rw [hr] at h; exact False.elim h
+theorem fn_step_no_error {s : St} (hinv : Inv s) (op : Op) (hv : Spec.valid op = true) :
+    ∃ res, step s op = .ok res := by
+  have h := C20.Props.step_refines hinv op hv
+  cases hr : step s op with
+  | ok r => exact ⟨r, rfl⟩
+  | error e => rw [hr] at h; exact False.elim h
+'''
+
 MANUAL["spans"] = '''
 theorem span_first_no_oob {α : Type} (base : List α) (s : Span) (hw : SpanWF base s) (hs : s.size ≤ DYN) (c : Nat)
     (h : c ≤ s.size) : (∃ res, s.first c = .ok res) ∧ (∃ res, s.firstT c = .ok res) :=
